@@ -199,6 +199,8 @@ class Interp:
             ints = all(x is None or (isinstance(x, int) and not isinstance(x, bool)) for x in (lo, hi, step))
             if ints and step != 0 and (isinstance(v, (frozenset, dict)) or (isinstance(v, tuple) and len(v) == 2 and v[0] == "seq")):
                 return frozenset(self.freeze(x) for x in self.iterate(v)[lo:hi:step])  # selected in the model's one order
+            if ints and step != 0 and isinstance(v, tuple) and all(isinstance(x, str) for x in v):
+                return v[lo:hi:step]  # a model list (the rules R): in list order
             raise Cannot("an order-dependent selection (slice) of a sequence that is not a model collection")
         if tag == "arith":
             a, b = self.val(t[2], env), self.val(t[3], env)
